@@ -29,7 +29,7 @@ CORPUS = core.VERIF / "corpus"
 
 
 WIDE = 70_000  # one very wide comment (an inlined source map, a generated banner): wider than any 16-bit column
-HEAVY = {"wide-line", "trail-wide"}  # not part of the all-at-once variants (a file of nothing but 70 kB lines)
+HEAVY = {"wide-line", "trail-wide", "doc-block-120"}  # not part of the all-at-once variants (a file of nothing but 70 kB lines)
 
 
 def kinds(lang):
@@ -41,7 +41,9 @@ def kinds(lang):
                # a comment that MENTIONS the suppression marker later in its text does not start with it
                ("trail-mention", "trail", "  # was marked nocl before the refactoring"),
                ("wide-line", "line", "# sourceMappingURL=data:application/json;base64," + "QUJD" * (WIDE // 4)),
-               ("trail-wide", "trail", "  # " + "w" * WIDE)]
+               ("trail-wide", "trail", "  # " + "w" * WIDE),
+               # 120 documentation lines at ONE place (between two parameters, above a statement ...)
+               ("doc-block-120", "line", "\n".join(["        # documentation line"] * 120))]
         return ks
     ks += [("slash0", "line", "// inserted comment ( { the caller's \"buffer\"; ) ,"), ("slash-ind", "line", "        // inserted } ) comment"),
            ("block0", "line", "/* inserted { ( comment */"), ("block-ind", "line", "    /* length (in bytes); don't \"quote\" } */"),
@@ -49,7 +51,8 @@ def kinds(lang):
            ("trail-mention", "trail", " // was marked nocl before the refactoring"), ("trail-mention-block", "trail", " /* not a nocl marker */"),
            ("trail-block-2lines", "trail", " /* trailing comment that\n      continues on the next line */"),
            ("wide-line", "line", "//# sourceMappingURL=data:application/json;base64," + "QUJD" * (WIDE // 4)),
-           ("trail-wide", "trail", " /* " + "w" * WIDE + " */")]
+           ("trail-wide", "trail", " /* " + "w" * WIDE + " */"),
+           ("doc-block-120", "line", "\n".join(["        // documentation line"] * 120))]
     return ks
 
 
@@ -95,7 +98,7 @@ def apply(lines, inserts):
             new_lines += [b] * t.count("\n")  # a trailing comment that runs over several lines adds lines below line b
         else:
             out.insert(b, t)
-            new_lines.append(b)
+            new_lines += [b] * (1 + t.count("\n"))  # an inserted block of several lines
     return "\n".join(out) + "\n", sorted(new_lines)
 
 
@@ -176,7 +179,7 @@ def load_file(desc):
     if desc["src"] == "wild":
         from mc.gen import wild
 
-        return wild.WILD[desc["lang"]][desc["name"]]
+        return dict(wild.snippets(desc["lang"]))[desc["name"]]
     if desc["src"] == "corpus":
         p = CORPUS / canon.EXT[desc["lang"]] / desc["name"]
         return p.read_text(encoding="utf-8")
